@@ -56,7 +56,7 @@ def _family_menu(tier):
     if tier == "quick":
         return [("serpentine", 3, 3), ("serpentine", 5, 5), ("serpentine", 9, 5), ("serpentine", 5, 9), ("serpentine", 9, 9),
                 ("spiral", 5, 0), ("spiral", 7, 0), ("spiral", 9, 0), ("comb", 5, 5), ("comb", 9, 9)]  # fmt: skip
-    sizes = (3, 4, 5, 6, 7, 8, 9)
+    sizes = (3, 4, 5, 7, 9)  # 6 and 8 dropped: the full 7x7 menu needed > 2 h on a shared machine
     return [(f, m, k) for f in ("serpentine", "comb") for m in sizes for k in sizes] + [("spiral", m, 0) for m in sizes]
 
 
@@ -90,7 +90,7 @@ def cases(tier, seed):
     for fam, m, k in _family_menu(tier):
         for emb in ("flat", "extruded2", "raised+foot", "slab3-middle"):
             # ConnectHolesAndStructures is ~100x slower (unrolled python loops, one XLA compile per op and shape): few shapes only
-            lim = 5 if tier == "quick" else 7
+            lim = 5  # ConnectHolesAndStructures on patterns up to 5x5 in both tiers (7x7 cost > 1 h in the thorough tier)
             connect = max(m, k) <= lim and emb in ("extruded2", "slab3-middle") and (tier == "thorough" or (fam, m) in (("serpentine", 5), ("spiral", 5)))
             out.append(dict(kind="family", family=fam, m=m, k=k, emb=emb, connect=connect, seed=seed))
     order = {"rfm": 0, "chs": 0, "chs3": 1, "family": 2, "rfm-weight": 3}
